@@ -107,6 +107,14 @@ def corpus_variants(prop):
     # behaviour-preserving refactorings written by independent agents (seeded/refactors): replayed as twins for the
     # property they were written against and for every property that ever raised an alarm on them
     rbase = os.path.join(base, "refactors")
+    # files this property's rules look at (from the last evidence file; falls back to "property it was written for")
+    touched_by_prop = set()
+    try:
+        with open(os.path.join(os.path.dirname(base), "evidence", f"{prop}.json")) as fh:
+            for k in json.load(fh)["coverage"].get("functions_analysed", []):
+                touched_by_prop.add(k.split(":")[0])
+    except Exception:
+        pass
     for sid in sorted(os.listdir(rbase)) if os.path.isdir(rbase) else []:
         mp = os.path.join(rbase, sid, "meta.json")
         pp = os.path.join(rbase, sid, "patch.diff")
@@ -114,7 +122,9 @@ def corpus_variants(prop):
             continue
         with open(mp) as fh:
             meta = json.load(fh)
-        if meta.get("property") == prop or prop in meta.get("first_alarms", {}):
+        with open(pp, encoding="utf8") as fh:
+            files = {l[6:].strip() for l in fh if l.startswith("+++ b/")}
+        if meta.get("property") == prop or prop in meta.get("first_alarms", {}) or prop in meta.get("alarms", {}) or (files & touched_by_prop):
             # a refactoring the checks are on record as not coping with yet (meta verdict != silent, DESIGN 9.5) is replayed
             # and reported, but it is a documented limit, not a regression of the checker
             out.append(dict(id=f"refactor:{sid}", kind="twin", patch=pp, known_limit=prop in meta.get("alarms", {})))
